@@ -151,7 +151,7 @@ PROPS = {
         rule=PROJ_RULE + "; the multiset of (controller, receiver, code, severity) of the real diagnostics is compared with the model's and the property's `wellLinked` is evaluated against the real verdict for every route; non-trivial = at least one route; distinct = distinct project",
         trusted_base=COMMON_TB + ["model Gleece/Model/Validate.lean is hand-written; the annotation table and HTTP tables are regenerated from the harness build of /repo (configuration.ValidatorConfigMap, definitions.Get*); tie = exact multiset equality of diagnostics on every generated project",
                                   "the project printer (harness/cmd/vh/proj.go) and go/packages (type loading, error-embedding check)"],
-        partial=["complete direction: `wellLinked_accepted` proves that the LINK validator reports nothing for a well-linked route (the property's wording as the structure `WellLinked`, decidable form `wellLinkedB`); `receiver_accepts` extends it to the whole receiver validator, and `commonValidate_complete` (C10Common.lean) proves that the annotation-table checks report no error for annotations satisfying the declarative rules `AnnotsWellFormed` (known, valued, not mutually exclusive, unique values, supported verb, 32-bit decimal status code): `well_formed_route_accepted` has no hypothesis that mentions a validator, and `commonValidate_accepts_iff` shows the rules are exactly what the annotation-level validator accepts (needs `exclusion_symmetric_lookup`, decided over the regenerated annotation table); the decidable form `annotsWellFormedB` is evaluated on every generated route against the model's and the implementation's verdict",
+        partial=["both directions for the link validator: `link_accepts_iff_partial` (`linkValidate = [] <-> WellLinked` under hF2 = open finding C10-F2, no empty alias, distinct parameter names); complete direction: `wellLinked_accepted` proves that the LINK validator reports nothing for a well-linked route (the property's wording as the structure `WellLinked`, decidable form `wellLinkedB`); `receiver_accepts` extends it to the whole receiver validator, and `commonValidate_complete` (C10Common.lean) proves that the annotation-table checks report no error for annotations satisfying the declarative rules `AnnotsWellFormed` (known, valued, not mutually exclusive, unique values, supported verb, 32-bit decimal status code): `well_formed_route_accepted` has no hypothesis that mentions a validator, and `commonValidate_accepts_iff` shows the rules are exactly what the annotation-level validator accepts (needs `exclusion_symmetric_lookup`, decided over the regenerated annotation table); the decidable form `annotsWellFormedB` is evaluated on every generated route against the model's and the implementation's verdict",
                  "the bijection theorems carry hypothesis hF2 (every un-aliased @Path names a {name}) = open finding C10-F2; `unaliased_outside_route_is_accepted` shows the validator does not establish it"],
         assumptions=["no user type embeds error in generated projects (errorEmbedders = [])"],
     ),
